@@ -216,7 +216,7 @@ void lp_feasibility_set_int_pick_value(const lp_feasibility_set_int_t* set, lp_i
     size_t pos = random() % set->size;
     lp_integer_assign(lp_Z, value, set->elements + pos);
   } else {
-    lp_integer_construct_from_int(lp_Z, value, 0);
+    lp_integer_assign_int(lp_Z, value, 0);
     // check 0
     if (!lp_feasibility_set_int_find(set, value)) {
       return;
